@@ -88,6 +88,29 @@ def msQueryPos (s : MocSet) (x : Nat) (withDeprecated : Bool) : List Nat :=
   (s.entries.filter fun e =>
       (e.status == 3 || (withDeprecated && e.status == 2)) && containsVal e.ranges x).map (·.id)
 
+/-- The selection predicate shared by `query` and `union`. -/
+def msSelected (region : List Rng) (included withDeprecated : Bool) (e : MsEntry) : Bool :=
+  (e.status == 3 || (withDeprecated && e.status == 2)) &&
+  (if included then !region.isEmpty && containsAll e.ranges region else intersects e.ranges region)
+
+/-- Union, at the output depth (`sh` = its shift), of a list of selected MOCs: the SPECIFICATION
+    (`RangeMocBuilder` computes exactly this for every push order and capacity: `C06.rangeBuilder_build`). -/
+def unionAt (sh : Nat) (es : List MsEntry) : List Rng :=
+  normalize ((es.flatMap (·.ranges)).map (degradeRange sh))
+
+/-- `mocset union <depth> moc|cone`: union of the matching MOCs. -/
+def msUnionQuery (s : MocSet) (region : List Rng) (included withDeprecated : Bool) (sh : Nat) : List Rng :=
+  unionAt sh (s.entries.filter (msSelected region included withDeprecated))
+
+/-- `mocset union <depth> pos`. -/
+def msUnionPos (s : MocSet) (x : Nat) (withDeprecated : Bool) (sh : Nat) : List Rng :=
+  unionAt sh (s.entries.filter fun e =>
+    (e.status == 3 || (withDeprecated && e.status == 2)) && containsVal e.ranges x)
+
+/-- `mocset union <depth> ids`: the live (valid or deprecated) MOCs with a listed identifier. -/
+def msUnionIds (s : MocSet) (ids : List Nat) (sh : Nat) : List Rng :=
+  unionAt sh (s.entries.filter fun e => e.status > 1 && ids.contains e.id)
+
 /-- The conversion the (repaired) code applies to a query region before testing it against a MOC
     stored on 32 bits: degrade to depth 13 (`sh = 2·(29−13)` bits), whose bounds are then exactly
     representable on 32 bits. -/
